@@ -56,7 +56,9 @@ example (a b : ℝ) : (@HAdd.hAdd ℝ ℝ ℝ (@instHAdd ℝ instDNumReal.toNum.
 
 namespace DubinsR
 @[simp] theorem ofNat_eq (n : Nat) : (Num.ofNat n : ℝ) = (n : ℝ) := rfl
-@[simp] theorem ofNat_lit (n : Nat) : (@OfNat.ofNat ℝ n (Num.instOfNat n) : ℝ) = (n : ℝ) := rfl
+/-- not `@[simp]`: up to instance unfolding the left side also matches Mathlib's own numerals `(n : ℝ)`,
+so together with `Nat.cast_ofNat` it would loop; the numerals the model uses have their own lemmas. -/
+theorem ofNat_lit (n : Nat) : (@OfNat.ofNat ℝ n (Num.instOfNat n) : ℝ) = (n : ℝ) := rfl
 @[simp] theorem ofNat_zero : (@OfNat.ofNat ℝ 0 (Num.instOfNat 0) : ℝ) = 0 := by
   show ((0 : ℕ) : ℝ) = 0; exact Nat.cast_zero
 @[simp] theorem ofNat_one : (@OfNat.ofNat ℝ 1 (Num.instOfNat 1) : ℝ) = 1 := by
